@@ -3,7 +3,8 @@
 # applies the seeded change to /repo, runs the command, and always reverts
 d=$1; shift
 git -C /repo apply "$(realpath "$d")/patch.diff" || { echo "patch does not apply"; exit 9; }
-"$@"
+# (runs against a seeded tree never overwrite the evidence files of the real tree)
+VF_NO_EVIDENCE=1 "$@"
 rc=$?
 git -C /repo checkout -- . 
 echo "try_seed: command exit status $rc; /repo reverted: $(git -C /repo status --short | wc -l) modified files"
